@@ -83,13 +83,16 @@ def build(log=None, prop_id=None):
             gen_report = {"error": "gen.py failed: rc=%s %s %s" % (rc, so[-2000:], se[-2000:])}
         if not os.path.exists(os.path.join(COQ, "Makefile")):
             sh("coq_makefile -f _CoqProject -o Makefile", cwd=COQ, timeout=120)
-        targets = " ".join(prop_targets(prop_id)) if prop_id else ""
+        adv_id = prop_id + "G" if prop_id and os.path.exists(os.path.join(COQ, "props", prop_id + "G.v")) else None
+        adv_targets = [t for t in prop_targets(adv_id) if t != "model/Extract.vo"] if adv_id else []
+        targets = " ".join(sorted(set(prop_targets(prop_id) + adv_targets))) if prop_id else ""
         rc, so, se = sh("make -k -j%d %s 2>&1" % (min(16, os.cpu_count() or 4), targets), cwd=COQ, timeout=3000)
         mlog = so + se
         # what is still out of date after `make -k` did not build (the file itself failed, or something it depends on did)
         rc_n, so_n, se_n = sh("make -n -k %s 2>&1" % targets, cwd=COQ, timeout=600)
         failed = sorted(set(re.findall(r'COQC (\S+\.v)', so_n)) | set(f for f in coq_files() if not os.path.exists(os.path.join(COQ, f))))
         failed_props = failed_model = failed
+        failed_advisory = []
         if prop_id:        # only what this property needs counts: the files its theorems depend on, and the files the executable model depends on
             def closure(tg):
                 rc_d, so_d, _ = sh("make -n -B -k %s 2>&1" % " ".join(tg), cwd=COQ, timeout=600)
@@ -97,6 +100,8 @@ def build(log=None, prop_id=None):
             tp = [t for t in prop_targets(prop_id) if t != "model/Extract.vo"]
             failed_props = [f for f in failed if f in closure(tp)]
             failed_model = [f for f in failed if f in closure(["model/Extract.vo"])]
+            # the function-level refinement theorems (props/<id>G.v) are a second, stronger tie: what fails only there is reported apart
+            failed_advisory = [f for f in failed if f in closure(adv_targets) and f not in failed_props and f not in failed_model] if adv_targets else []
             failed = sorted(set(failed_props) | set(failed_model))
         # extraction output lands in coq/ (cwd of coqc); move and compile if newer than the driver
         drv = os.path.join(OCAML, "drv")
@@ -114,7 +119,7 @@ def build(log=None, prop_id=None):
                 mlog += "\nOCAML BUILD FAILED\n" + so2 + se2
         if "model/Extract.v" in failed or not os.path.exists(drv):
             drv_ok = False
-    res = {"gen": gen_report, "failed": failed, "failed_props": failed_props, "failed_model": failed_model, "driver_ok": drv_ok, "log": mlog[-20000:], "wall_s": round(time.time() - t0, 1)}
+    res = {"gen": gen_report, "failed": failed, "failed_props": failed_props, "failed_model": failed_model, "failed_advisory": failed_advisory, "driver_ok": drv_ok, "log": mlog[-20000:], "wall_s": round(time.time() - t0, 1)}
     if log:
         with open(log, "w") as f:
             f.write(mlog)
